@@ -33,8 +33,8 @@ class Ctx:
 
 
 # property -> configuration
-def P(lean_mods, cfgs_quick, cfgs_thorough, req, profile="release", legacy=False, extra=None, gen_items=()):
-    return dict(lean=lean_mods, cq=cfgs_quick, ct=cfgs_thorough, req=req, profile=profile, legacy=legacy, extra=extra,
+def P(lean_mods, cfgs_quick, cfgs_thorough, req, profiles=("release",), legacy=False, extra=None, gen_items=()):
+    return dict(lean=lean_mods, cq=cfgs_quick, ct=cfgs_thorough, req=req, profiles=profiles, legacy=legacy, extra=extra,
                 gen_items=gen_items)
 
 
@@ -50,6 +50,7 @@ def register():
     R["C02"] = P(["Dalek.Props.C02"], ["serial64", "serial32", "simd"], ALL6, props.req_C02)
     R["C03"] = P(["Dalek.Props.C03"], ["serial64", "serial32", "simd", "avx512"], ALL6, props.req_C03)
     R["C04"] = P(["Dalek.Props.C04"], ["serial64", "serial32", "simd", "avx512", "simd-notables", "serial64-notables"], ALL12, props.req_C04)
+    R["C11"] = P(["Dalek.Props.C11"], ALL6, ALL6, props.req_C11, profiles=("checked", "release"))
 
 
 register()
@@ -202,8 +203,12 @@ def corr_stage(ctx, spec, boost=False):
     cfgs = spec["cq"] if tier == "quick" else spec["ct"]
     if spec["legacy"]:
         cfgs = list(cfgs) + ["simd-legacy"]
-    drivers, bad = build_drivers(cfgs, spec["profile"])
-    problems = ["driver %s failed to build: %s" % (c, e[-800:]) for c, e in bad.items()]
+    drivers, problems = {}, []
+    for prof in spec["profiles"]:
+        d, bad = build_drivers(cfgs, prof)
+        for c, pth in d.items():
+            drivers[c if prof == "release" else c + "@" + prof] = pth
+        problems += ["driver %s (%s) failed to build: %s" % (c, prof, e[-800:]) for c, e in bad.items()]
     r = SplitMix64(ctx.seed).fork(ctx.pid)
     reqs = spec["req"](r, tier)
     # corpus first
@@ -313,7 +318,12 @@ def replay(ctx, path):
         print("replay file names no concrete request:", json.dumps(content)[:2000])
         return 1
     cfgs = sorted({v.get("cfg") for v in content["violations"] if v.get("cfg")}) or spec["cq"]
-    drivers, bad = build_drivers(cfgs, spec["profile"])
+    drivers = {}
+    for c in cfgs:
+        name, _, prof = c.partition("@")
+        d, bad = build_drivers([name], prof or "release")
+        if name in d:
+            drivers[c] = d[name]
     lake_build(["dalek-model"])
     mo = run_model(lines)
     rc = 0
